@@ -418,7 +418,22 @@ fn main() {
     let n_gen = ctx.tier.pick(48, 1400);
     run_cases(&sub_ctx(&ctx, 0.85), &replay, &mut rep, "class.generated", n_gen, |rng, rep, case| {
         let cfg = cf::gen::GenCfg { max_fields: 2, max_methods: 3, max_insns: if case % 4 == 0 { 6 } else { 24 }, ..Default::default() };
-        let m = cf::gen::gen_class(rng, &cfg);
+        let mut m = cf::gen::gen_class(rng, &cfg);
+        // Names that cannot be PRINTED (an unpaired surrogate is legal in a class file and for duke's name types, but `Display` of
+        // those types refuses it): every fourth seed carries one in the class name and in every ordinary method / field name, so
+        // that each error path of the reader and - for what the reader accepts - of the writer is walked with a name whose
+        // formatting inside an error message can itself fail. Every other fourth seed gets cf::hostile names at a third of its sites.
+        match case % 4 {
+            1 => {
+                let sur = |n: &cf::model::JS, rng: &mut Rng| { let mut b = n.0.clone(); b.extend_from_slice(if rng.bool() { &[0xED, 0xA0, 0x80] } else { &[0xED, 0xB0, 0x80, b'x'] }); cf::model::JS(b) };
+                m.this_class = sur(&m.this_class, rng);
+                for me in m.methods.iter_mut() { if me.name.0.first() != Some(&b'<') { me.name = sur(&me.name, rng); } }
+                for f in m.fields.iter_mut() { f.name = sur(&f.name, rng); }
+                rep.count("class_seeds.with_unprintable_names(unpaired surrogate in class, method and field names)");
+            }
+            3 => { for t in cf::hostile::hostilise(rng, &mut m, (1, 3), 40) { rep.seen("hostile_names", t); } rep.count("class_seeds.with_hostile_names"); }
+            _ => {}
+        }
         let layout = if case % 3 == 0 { cf::emit::Layout::canonical() } else { cf::emit::Layout::random(rng.next_u64()) };
         let Ok(bytes) = cf::emit::emit(&m, &layout) else { rep.count("class_seeds.emit_skipped"); return };
         class_case(rep, rng, bytes, "generated class (cf::gen)");
@@ -460,6 +475,7 @@ fn main() {
     for p in Parser::REAL { let (o, e) = (rep.get(&format!("outcome.{}.ok", p.name())), rep.get(&format!("outcome.{}.err", p.name()))); meta.oblige(format!("{}: both accepted and refused inputs observed", p.name()), o > 0 && e > 0); }
     meta.oblige("write_class ran on classes the reader accepted (mutated ones included)", rep.get("inputs.write_class") >= 50);
     for r in ["count", "length", "pool_index", "code_offset", "tag", "utf8_length", "opcode", "bootstrap_index"] { meta.oblige(format!("class spans of role {r} mutated"), rep.get(&format!("spans_mutated.{r}")) > 0); }
+    meta.oblige("class seeds whose class / method / field names cannot be printed (unpaired surrogates): at least 8, and the writer refused (returned Err for) at least one class the reader accepted", rep.get("class_seeds.with_unprintable_names(unpaired surrogate in class, method and field names)") >= 8 && rep.get("outcome.write_class.err") > 0);
     meta.oblige("at least 3 class files under 512 bytes truncated at every byte", rep.get("class_seeds.truncated_at_every_byte") >= 3);
     meta.oblige("at least 8 class seeds enumerated completely", rep.get("class_seeds") >= 8);
     for f in ["self_reference.pool_entry_own_index", "self_reference.bootstrap_argument", "duplicate_attribute.attribute", "swap_attribute_name.attribute", "truncate.every_byte", "random_edit.bit_flip"] { meta.oblige(format!("class mutation family {f} applied"), rep.get(&format!("mutations.{f}")) > 0); }
